@@ -88,8 +88,9 @@ def right_args(rng, s):
     return args
 
 
-def gen_case(rng, sigs, i):
-    fn = rng.randrange(len(sigs)) if rng.random() < 0.9 else rng.choice([-1, -2, -3])
+def gen_case(rng, sigs, i, fn=None):
+    if fn is None:
+        fn = rng.randrange(len(sigs)) if rng.random() < 0.9 else rng.choice([-1, -2, -3])
     if fn < 0:
         args = [gen_val(rng, rng.choice(SUP)) for _ in range(rng.randrange(3))]
         return {"op": "F", "fn": fn, "args": args, "errmode": "err", "kind": "nonfunc"}
@@ -179,7 +180,13 @@ def run(ctx):
     n = 3000 if ctx.quick else 60000
     npairs = 600 if ctx.quick else 8000
     rng = ctx.rng
-    cases = [gen_case(rng, sigs, i) for i in range(n)]
+    # instantiations of generic functions (harness/unitrun/op_generic.go) follow the generated pool; every 10th
+    # case is one of them, so instantiations of ONE generic function meet in one process in random order
+    gsigs = json.load(open(os.path.join(ctx.tmp, "src_unitrun", "pool_generic.json")))
+    gbase = len(sigs)
+    sigs = sigs + gsigs
+    cases = [gen_case(rng, sigs, i, fn=(gbase + rng.randrange(len(gsigs))) if i % 10 == 3 else None) for i in range(n)]
+    ctx.coverage["generic_instantiation_cases"] = sum(1 for c in cases if c["fn"] >= gbase)
     if ctx.replay and ctx.replay.get("case"):
         cases = [ctx.replay["case"]] + cases[:50]
     # pairs
